@@ -754,6 +754,17 @@ def run(ctx):
                 if not math.isnan(v) and not (0 <= v <= 1):
                     ctx.fail({"kind": "range", "method": "event_synchronization"},
                              f"event synchronisation strength {v} outside [0,1]", rep)
+            # power-of-two change of the time unit: exact in IEEE double, so the doubles returned
+            # are bit-identical also where the counting rounds (theorem es_float_pow2_scale)
+            k = rng.choice([0.5, 4.0, 2.0 ** -34, 2.0 ** -20, 2.0 ** 30])
+            r6 = call(lambda: ES.event_synchronization(ax, ay, ts1=a1 * k, ts2=a2 * k,
+                                                       taumax=tm * k, lag=lag * k))
+            g6 = "raise:" + type(r6).__name__ if isinstance(r6, Exception) else \
+                ",".join(exact_f64(v) for v in r6)
+            if g6 != got:
+                ctx.fail({"kind": "scale-pow2-float", "method": "event_synchronization"},
+                         f"ES on non-representable time stamps changes under the exact rescaling of "
+                         f"time, lag and window by {k}: {got} -> {g6}", dict(rep, scale=k))
     ctx.correspond("Lean esFl (every operation on times rounded to double, esSeriesR rn53s) == "
                    "event_synchronization on time stamps with non-representable sums / differences, "
                    "bit for bit", reqs, impl)
